@@ -15,14 +15,15 @@ import (
 )
 
 type stdioPeerCfg struct {
-	Init      []string          `json:"init"`       // outcome of the k-th initialize request
-	CountFile string            `json:"count_file"` // number of lines received so far is written here
-	Answers   map[string]string `json:"answers"`    // method -> raw result JSON (overrides)
-	Emit      []stdioEmit       `json:"emit"`       // extra output tied to the n-th request line
-	ExitAfter int               `json:"exit_after"` // exit (code 0) after this many request lines (0 = never)
-	KillSelf  int               `json:"kill_self"`  // SIGKILL-like abrupt exit after this many lines (0 = never)
-	Silent    []string          `json:"silent"`     // methods that are never answered
-	DelayMs   int               `json:"delay_ms"`
+	Init       []string          `json:"init"`       // outcome of the k-th initialize request
+	CountFile  string            `json:"count_file"` // number of lines received so far is written here
+	Answers    map[string]string `json:"answers"`    // method -> raw result JSON (overrides)
+	Emit       []stdioEmit       `json:"emit"`       // extra output tied to the n-th request line
+	ExitAfter  int               `json:"exit_after"` // exit (code 0) after this many request lines (0 = never)
+	KillSelf   int               `json:"kill_self"`  // SIGKILL-like abrupt exit after this many lines (0 = never)
+	Silent     []string          `json:"silent"`     // methods that are never answered
+	DelayMs    int               `json:"delay_ms"`
+	AnswerFile string            `json:"answer_file"` // when set: every non-initialize request is answered from this file ({"raw":..,"is_err":..})
 }
 
 type stdioEmit struct {
@@ -116,6 +117,20 @@ func stdioPeerMain(args []string) int {
 					// no answer at all
 				}
 			default:
+				if cfg.AnswerFile != "" {
+					var a struct {
+						Raw   string `json:"raw"`
+						IsErr bool   `json:"is_err"`
+					}
+					if b, err := os.ReadFile(cfg.AnswerFile); err == nil && json.Unmarshal(b, &a) == nil {
+						if a.IsErr {
+							write(fmt.Sprintf(`{"jsonrpc":"2.0","id":%s,"error":%s}`+"\n", m.ID, a.Raw))
+						} else {
+							write(fmt.Sprintf(`{"jsonrpc":"2.0","id":%s,"result":%s}`+"\n", m.ID, a.Raw))
+						}
+						break
+					}
+				}
 				res, ok := cfg.Answers[m.Method]
 				if !ok {
 					res, ok = genericAnswers[m.Method]
